@@ -262,7 +262,47 @@ def c_up(r, c):
     return None
 
 
-CORRUPT = {"cmp": c_cmp, "row": c_row, "triple": c_triple, "sort": c_sort, "parse": c_parse, "dep": c_dep, "dep_rt": c_dep_rt,
+def c_upseq(r, c):
+    # the handle is reported one step behind: after the last operation it is where it was before
+    if len(r["steps"]) < 2 or r["steps"][-1]["handle"] == r["steps"][-2]["handle"]:
+        # same place: claim instead that the source directory still holds everything after the first step
+        r["steps"][-1]["a"], r["steps"][-1]["b"] = r["steps"][-1]["b"], r["steps"][-1]["a"]
+        if r["steps"][-1]["a"] == r["steps"][-1]["b"]:
+            return None
+        return r
+    r["steps"][-1]["handle"] = r["steps"][-2]["handle"]
+    return r
+
+
+def c_rt2(r, c):
+    # the decoded struct reported as still holding the first document's value in one field that differs
+    a, b = r["in"]["first"], r["in"]["second"]
+    for k in sorted(b):
+        if a[k] != b[k] and k in r["decoded"] and r["decoded"][k] == b[k] and b[k] not in ([], "", 0, False):
+            r["decoded"][k] = a[k]
+            return r
+    return None
+
+
+def c_cs_ops(r, c):
+    # the last poll of reader 1 (end-of-input) reported as another paragraph of a different reader
+    paras = [s for s in r["steps"] if s["kind"] == "para"]
+    if not paras or r["steps"][-1]["kind"] != "eof":
+        return None
+    r["steps"][-1] = copy.deepcopy(paras[-1])
+    return r
+
+
+def c_deb_ops(r, c):
+    # two handles' data streams swapped
+    idx = [i for i, o in enumerate(r["in"]["ops"]) if o["op"] == "data"]
+    if len(idx) < 2 or r["steps"][idx[0]]["tar"] == r["steps"][idx[1]]["tar"]:
+        return None
+    r["steps"][idx[0]]["tar"], r["steps"][idx[1]]["tar"] = r["steps"][idx[1]]["tar"], r["steps"][idx[0]]["tar"]
+    return r
+
+
+CORRUPT = {"upseq": c_upseq, "rt2": c_rt2, "cs_ops": c_cs_ops, "deb_ops": c_deb_ops, "cmp": c_cmp, "row": c_row, "triple": c_triple, "sort": c_sort, "parse": c_parse, "dep": c_dep, "dep_rt": c_dep_rt,
            "arch_rt": c_arch_rt, "is": c_is, "setmatch": c_setmatch, "select": c_select, "sat": c_sat, "read": c_read,
            "write": c_write, "rw": c_rw, "rt": c_rt, "passthru": c_passthru, "doc": c_doc, "cs": c_cs, "hw": c_hw, "hr": c_hw,
            "verifier": c_verifier, "ar": c_ar, "arbig": c_arbig, "arraw": c_arraw, "debraw": c_debraw, "deb": c_deb, "cl": c_cl,
@@ -308,7 +348,7 @@ def main(tier):
         os.makedirs(ctx.run, exist_ok=True)
         state = {"n": 0, "holes": []}
 
-        def judge(c, p, vectors, what="", exec_prop=None, **kw):
+        def judge(c, p, vectors, what="", exec_prop=None, reverse=False, **kw):
             trace = c.fresh("trace") + ".ndjson"
             vf.hexec(c, exec_prop or p, vectors, trace)
             mod = props.PROPS[p]["trace"]
